@@ -356,7 +356,53 @@ def gen_acm():
     return kinds
 
 
+FIELD = "src/qib/field/field.py"
+PARTICLE = "src/qib/field/particle.py"
+FIELD_INIT = "src/qib/field/__init__.py"
+
+
+def plain_class(tree, path, name, allowed_special=("__init__",)):
+    """the class `name` of a strict module: no decorator, no metaclass/keywords, every member a plain (undecorated except
+    @property) function or the docstring, no special method besides `allowed_special` (so == / hash / attribute access are
+    the defaults of object)"""
+    c = find_class(tree, name)
+    expect(not c.decorator_list and not c.keywords, "%s: class %s is decorated or has class keywords" % (path, name))
+    for n in c.body:
+        if is_doc(n):
+            continue
+        expect(isinstance(n, ast.FunctionDef), "%s: class %s: member `%s` is not a plain method" % (path, name, U(n)[:60]))
+        expect(all(U(d) == "property" for d in n.decorator_list), "%s: %s.%s is decorated" % (path, name, n.name))
+        special = n.name.startswith("__") and n.name.endswith("__")
+        expect(not special or n.name in allowed_special,
+               "%s: class %s defines %s (equality / hashing / attribute access are no longer the defaults of object)"
+               % (path, name, n.name))
+    return c
+
+
+def check_field_identity():
+    """`p.field == f` in map_particle_to_wire is OBJECT IDENTITY of fields: Field is a plain class deriving from object
+    with no special method besides __init__ (no __eq__/__hash__, no dataclass decorator); Particle.__eq__ compares
+    the field (identity) and the index; Qubit does not override it.  The model's field ids are distinct integers per
+    Field object exactly because of this."""
+    tree = parse(FIELD)
+    strict_module(tree, FIELD, {})
+    c = plain_class(tree, FIELD, "Field")
+    expect(not c.bases, "%s: class Field has base classes" % FIELD)
+    init = parse(FIELD_INIT)
+    strict_module(init, FIELD_INIT, {"Field": "qib.field.field", "Particle": "qib.field.particle", "Qubit": "qib.field.particle"})
+    tree = parse(PARTICLE)
+    strict_module(tree, PARTICLE, {"Field": "qib.field"})
+    pc = plain_class(tree, PARTICLE, "Particle", ("__init__", "__eq__", "__hash__"))
+    expect(not pc.bases, "%s: class Particle has base classes" % PARTICLE)
+    eq = body_nodoc(ufunc(pc, "__eq__"))
+    expect(len(eq) == 1, "Particle.__eq__: one statement")
+    expect_text(eq[0], "return self.field == other.field and self.index == other.index", "Particle.__eq__")
+    qc = plain_class(tree, PARTICLE, "Qubit")
+    expect([U(b) for b in qc.bases] == ["Particle"], "%s: bases of Qubit" % PARTICLE)
+
+
 def gen_mp2w():
+    check_field_identity()
     tree = parse_util()
     fn = ufunc(tree, "map_particle_to_wire")
     expect([a.arg for a in fn.args.args] == ["fields", "p"], "map_particle_to_wire parameters")
